@@ -131,7 +131,7 @@ def c01_part(rep, st, tier):
     n1b_symbolic(rep, st, tier)
     n1b(rep, st, tier)
     res = chx.run_module('reader', names=list(TITLES_R), per_condition_timeout=120 if tier == 'quick' else 600)
-    chx.report(rep, res, TITLES_R)
+    chx.report(rep, res, TITLES_R, replays=READ_REPLAYS, sigs={k: 'R1.' + k.strip('_') for k in TITLES_R})
 
 
 def c08_part(rep, st, tier):
@@ -222,3 +222,68 @@ def n1b_symbolic(rep, st, tier):
                 rep.ob(title, 'inconclusive', detail='solver unknown at rate %d/%d cadence %ds/%dms' % (n, d, sc, fc)); return
     rep.ob(title, 'discharged', '%d (rate, cadence) configurations x all s0 <= k <= s1 with times in [1980, 2100)' % ncfg, nq, time.time() - t0, nq,
            sample={'range': [ast.unparse(x) for x in rng], 'arange': [ast.unparse(x) for x in ar.args], 'mask': [ast.unparse(x) for x in mask.args]})
+
+
+
+# real-build replay for the per-file read harnesses (_read_lengths, _read_slices, _split_invariance, _two_files): a channel whose file(s)
+# carry exactly the counterexample's index rows is written with the real writer and read with the real reader; the result is compared with
+# Blocks(Sem(index)) computed here
+REPLAY_READ = '''
+from vlib import build
+import numpy as np, tempfile, os, shutil, sys, glob, warnings
+warnings.simplefilter('ignore')
+drf = build.load_pkg()
+kw = %r
+r1 = kw.get('rows', kw.get('r1')); n1 = kw.get('n', kw.get('n1')); r2 = kw.get('r2'); n2 = kw.get('n2', 0)
+r1 = [tuple(x) for x in r1]; r2 = [tuple(x) for x in r2] if r2 else None
+SPF = 1000; B = 10**12                       # 1000 Hz, 1 s files: 1000 samples per file, B is a file boundary
+S = B - (r2[0][0] if r2 else 0) if r2 else B
+if r2 and not (r2[0][0] <= SPF and r2[-1][0] + n2 < r2[0][0] + SPF): print('counterexample does not fit the replay layout'); sys.exit(3)
+top = tempfile.mkdtemp(); ch = os.path.join(top, 'ch'); os.makedirs(ch)
+w = drf.DigitalRFWriter(ch, 'i4', 3600, 1000, S, 1000, 1, 'u', is_complex=False, is_continuous=False, marching_periods=False)
+w.rf_write_blocks(np.arange(n1, dtype='i4'), [g for g, o in r1], [o for g, o in r1])
+if r2: w.rf_write_blocks(np.arange(n1, n1 + n2, dtype='i4'), [g for g, o in r2], [o for g, o in r2])
+w.close()
+files = sorted(glob.glob(os.path.join(ch, '*', 'rf@*.h5')))
+def sem(rows, n, v0):
+    out = []
+    for i, (g, o) in enumerate(rows):
+        stop = rows[i + 1][1] if i + 1 < len(rows) else n
+        out += [(S + g + k, v0 + o + k) for k in range(stop - o)]
+    return out
+truth = []
+if kw.get('have1', True): truth += sem(r1, n1, 0)
+elif files: os.remove(files[0])
+if r2:
+    if kw.get('have2', True): truth += sem(r2, n2, n1)
+    else: os.remove(files[-1])
+def blocks(pairs):
+    out = []
+    for s_, v in pairs:
+        if out and out[-1][0] + len(out[-1][1]) == s_: out[-1][1].append(v)
+        else: out.append((s_, [v]))
+    return out
+r = drf.DigitalRFReader(top)
+bad = 0
+def check(q0, q1):
+    global bad
+    want = blocks([(s_, v) for s_, v in truth if S + q0 <= s_ <= S + q1])
+    try:
+        got = [(int(k), [int(x) for x in np.asarray(v).ravel()]) for k, v in r.read(S + q0, S + q1, 'ch').items()]
+        lens = [(int(k), int(v)) for k, v in r.get_continuous_blocks(S + q0, S + q1, 'ch').items()]
+    except Exception as e:
+        print('read(%%d, %%d) raised %%s: %%s' %% (q0, q1, type(e).__name__, e)); bad = 1; return []
+    if got != want: print('read(%%d, %%d) ->' %% (q0, q1), [(k - S, v) for k, v in got], 'expected', [(k - S, v) for k, v in want]); bad = 1
+    if lens != [(k, len(v)) for k, v in want]: print('get_continuous_blocks(%%d, %%d) ->' %% (q0, q1), lens, 'expected', [(k, len(v)) for k, v in want]); bad = 1
+    return got
+if 'b' in kw and 'c' in kw:
+    whole = check(kw['a'], kw['c']); left = check(kw['a'], kw['b']); right = check(kw['b'] + 1, kw['c'])
+    flat = lambda bl: [(k + i, x) for k, v in bl for i, x in enumerate(v)]
+    if flat(whole) != flat(left) + flat(right): print('split at', kw['b'], 'changes the result'); bad = 1
+else:
+    check(kw['s0'], kw['s1'])
+    for q in sorted(set(s_ - S for s_, _ in truth)): check(q, q)
+shutil.rmtree(top)
+sys.exit(1 if bad else 0)
+'''
+READ_REPLAYS = {k: (lambda kw: REPLAY_READ % (kw,)) for k in ('_read_lengths', '_read_slices', '_split_invariance', '_two_files')}
